@@ -123,3 +123,310 @@ Proof.
       exists fuel'. exact H.
 Qed.
 End BlockRT.
+
+(* ------------------------------------------- what the stores leave in the block *)
+Definition agree (k : nat) (blk b : list Z) : Prop :=
+  length blk = 64%nat /\
+  forall j, (j < 64)%nat -> nth (order j) blk 0 = if (j <? k)%nat then nth (order j) b 0 else 0.
+
+Lemma agree_step b k blk : (k < 64)%nat -> agree k blk b ->
+  agree (S k) (if nth (order k) b 0 =? 0 then blk else upd (order k) (nth (order k) b 0) blk) b.
+Proof.
+  intros Hk [Hl Ha]. destruct (nth (order k) b 0 =? 0) eqn:E.
+  - split; [exact Hl|]. intros j Hj. rewrite (Ha j Hj).
+    destruct (Nat.eq_dec j k) as [->|Hne].
+    + apply Z.eqb_eq in E. rewrite Nat.ltb_irrefl. replace (k <? S k)%nat with true by (symmetry; apply Nat.ltb_lt; lia).
+      now rewrite E.
+    + destruct (j <? k)%nat eqn:E1, (j <? S k)%nat eqn:E2; try reflexivity;
+        [apply Nat.ltb_lt in E1; apply Nat.ltb_ge in E2; lia|apply Nat.ltb_ge in E1; apply Nat.ltb_lt in E2; lia].
+  - split; [now rewrite upd_length|]. intros j Hj. destruct (Nat.eq_dec j k) as [->|Hne].
+    + rewrite nth_upd_same by (rewrite Hl; apply order_lt).
+      replace (k <? S k)%nat with true by (symmetry; apply Nat.ltb_lt; lia). reflexivity.
+    + rewrite nth_upd_other by (intros Heq; apply Hne; symmetry; apply order_inj; auto).
+      rewrite (Ha j Hj).
+      destruct (j <? k)%nat eqn:E1, (j <? S k)%nat eqn:E2; try reflexivity;
+        [apply Nat.ltb_lt in E1; apply Nat.ltb_ge in E2; lia|apply Nat.ltb_ge in E1; apply Nat.ltb_lt in E2; lia].
+Qed.
+
+Lemma agree_writes b : forall l k blk, l = skipn k (zz_of b) -> (k + length l = 64)%nat ->
+  agree k blk b -> agree 64 (writes l k blk) b.
+Proof.
+  induction l as [|v t IH]; intros k blk Hl Hk Ha.
+  - cbn in Hk. replace k with 64%nat in Ha by lia. exact Ha.
+  - cbn [length] in Hk. symmetry in Hl. destruct (skipn_cons_nth 0 _ _ _ _ Hl) as [Hv Ht].
+    rewrite zz_of_nth in Hv by lia. cbn [writes]. apply IH; [now symmetry|lia|].
+    subst v. apply agree_step; [lia|exact Ha].
+Qed.
+
+Lemma agree_64_eq blk b : length b = 64%nat -> agree 64 blk b -> blk = b.
+Proof.
+  intros Hb [Hl Ha]. apply (nth_ext _ _ 0 0); [congruence|].
+  intros i Hi. rewrite Hl in Hi. rewrite <- (order_inv i Hi).
+  rewrite Ha by (now apply inv_lt).
+  replace (nth i inv_order 0%nat <? 64)%nat with true; [reflexivity|].
+  symmetry. apply Nat.ltb_lt. now apply inv_lt.
+Qed.
+
+Lemma agree_init b : agree 1 (upd 0 (nth 0 b 0) (repeat 0 64)) b.
+Proof.
+  split; [now rewrite upd_length|]. intros j Hj.
+  destruct j as [|j].
+  - change (order 0) with 0%nat. cbn [Nat.ltb Nat.leb]. now rewrite nth_upd_same by (cbn; lia).
+  - replace (S j <? 1)%nat with false by (symmetry; apply Nat.ltb_ge; lia).
+    rewrite nth_upd_other.
+    + pose proof (order_lt (S j)). generalize dependent (order (S j)). intros n Hn.
+      clear - Hn. rewrite nth_repeat. reflexivity.
+    + change 0%nat with (order 0) at 1. intros Heq. apply order_inj in Heq; lia.
+Qed.
+
+(* ---------------------------------------------------------- block theorem *)
+Section BlockRT2.
+Variable dc ac : codec.
+Variable mcb : Z.
+Hypothesis mcb_le : mcb <= 15.
+
+Lemma ac_roundtrip b bits rest blk :
+  enc_ac ac mcb (skipn 1 (zz_of b)) = Some bits ->
+  dec_ac ac 64 1 blk (bits ++ rest) = Some (writes (skipn 1 (zz_of b)) 1 blk, rest).
+Proof.
+  unfold enc_ac. intros He.
+  destruct (enc_band ac mcb (skipn 1 (zz_of b)) 0) as [[bb r]|] eqn:Eb; [|discriminate].
+  assert (Hlen : (1 + length (skipn 1 (zz_of b)) = 64)%nat) by (rewrite skipn_length, zz_of_length; lia).
+  destruct (r >? 0) eqn:Er.
+  - destruct (c_enc ac 0) as [e|] eqn:Ee; [|discriminate]. inversion He; subst bits. clear He.
+    rewrite <- app_assoc.
+    destruct (band_roundtrip ac mcb mcb_le _ 0 1%nat 1%nat blk 64%nat bb r (e ++ rest) Hlen ltac:(lia) ltac:(reflexivity) ltac:(lia) Eb)
+      as [fuel' [H0 [H1 [H2 H3]]]].
+    rewrite H3. apply Z.gtb_lt in Er. destruct fuel' as [|f]; [lia|]. cbn [dec_ac].
+    destruct (64 <=? 64 - Z.to_nat r)%nat eqn:E; [apply Nat.leb_le in E; lia|].
+    rewrite (c_ok ac 0 e _ Ee). reflexivity.
+  - inversion He; subst bits. clear He.
+    destruct (band_roundtrip ac mcb mcb_le _ 0 1%nat 1%nat blk 64%nat bb r rest Hlen ltac:(lia) ltac:(reflexivity) ltac:(lia) Eb)
+      as [fuel' [H0 [H1 [H2 H3]]]].
+    rewrite H3. rewrite Z.gtb_ltb in Er. apply Z.ltb_ge in Er. replace r with 0 by lia.
+    destruct fuel' as [|f]; [lia|]. reflexivity.
+Qed.
+
+Lemma dc_diff_roundtrip d extra bits rest :
+  enc_dc_diff dc mcb d extra = Some bits -> dec_dc_diff dc (bits ++ rest) = Some (d, rest).
+Proof.
+  unfold enc_dc_diff, dec_dc_diff. intros He.
+  destruct (nbits (Z.abs d) >? mcb + extra); [discriminate|].
+  destruct (c_enc dc (nbits (Z.abs d))) as [c|] eqn:Ec; [|discriminate].
+  inversion He; subst bits. clear He. rewrite <- app_assoc. rewrite (c_ok dc _ c _ Ec).
+  destruct (Z.eq_dec d 0) as [->|Hd].
+  - cbn. reflexivity.
+  - pose proof (nbits_bounds (Z.abs d) ltac:(lia)) as [Hn _].
+    destruct (nbits (Z.abs d) =? 0) eqn:E0; [apply Z.eqb_eq in E0; lia|].
+    destruct (mag_roundtrip d rest Hd) as [x [Hx Hext]]. rewrite Hx, Hext. reflexivity.
+Qed.
+
+Theorem block_roundtrip last_dc b bits rest : length b = 64%nat ->
+  enc_block dc ac mcb last_dc b = Some bits ->
+  dec_block dc ac last_dc (bits ++ rest) = Some (b, rest).
+Proof.
+  intros Hb He. unfold enc_block in He.
+  destruct (enc_dc_diff dc mcb (nth 0 b 0 - last_dc) 1) as [d|] eqn:Ed; [|discriminate].
+  destruct (enc_ac ac mcb (skipn 1 (zz_of b))) as [a|] eqn:Ea; [|discriminate].
+  inversion He; subst bits. clear He. unfold dec_block. rewrite <- app_assoc.
+  rewrite (dc_diff_roundtrip _ _ _ _ Ed). replace (nth 0 b 0 - last_dc + last_dc) with (nth 0 b 0) by lia.
+  rewrite (ac_roundtrip b a rest _ Ea). f_equal. f_equal.
+  apply agree_64_eq; [exact Hb|]. apply agree_writes; [reflexivity|rewrite skipn_length, zz_of_length; lia|].
+  apply agree_init.
+Qed.
+End BlockRT2.
+
+(* ------------------------------------------------------------ MCU, interval *)
+Definition wf_block (b : list Z) : Prop := length b = 64%nat.
+
+Section McuRT.
+Variable dct act : nat -> codec.
+Variable mcb : Z.
+Hypothesis mcb_le : mcb <= 15.
+
+Lemma mcu_roundtrip : forall mem blocks ldc bits ldc' rest,
+  Forall wf_block blocks -> enc_mcu dct act mcb mem blocks ldc = Some (bits, ldc') ->
+  dec_mcu dct act mem ldc (bits ++ rest) = Some (blocks, ldc', rest).
+Proof.
+  induction mem as [|ci mt IH]; intros blocks ldc bits ldc' rest Hwf He.
+  - destruct blocks; [|discriminate]. cbn in He. inversion He; subst. reflexivity.
+  - destruct blocks as [|b bt]; [discriminate|]. cbn [enc_mcu] in He.
+    destruct (enc_block (dct ci) (act ci) mcb (nthZ ldc ci) b) as [bb|] eqn:Eb; [|discriminate].
+    destruct (enc_mcu dct act mcb mt bt (upd ci (nth 0 b 0) ldc)) as [[rb l']|] eqn:Er; [|discriminate].
+    inversion He; subst bits ldc'. clear He. inversion Hwf as [|? ? Hb Hbt]; subst.
+    cbn [dec_mcu]. rewrite <- app_assoc.
+    rewrite (block_roundtrip (dct ci) (act ci) mcb mcb_le _ b bb _ Hb Eb).
+    rewrite (IH bt _ rb l' rest Hbt Er). reflexivity.
+Qed.
+
+Lemma mcus_roundtrip mem : forall ms ldc bits rest,
+  Forall (Forall wf_block) ms -> enc_mcus dct act mcb mem ms ldc = Some bits ->
+  dec_mcus dct act mem (length ms) ldc (bits ++ rest) = Some (ms, rest).
+Proof.
+  induction ms as [|m t IH]; intros ldc bits rest Hwf He.
+  - cbn in He. inversion He; subst. reflexivity.
+  - cbn [enc_mcus] in He.
+    destruct (enc_mcu dct act mcb mem m ldc) as [[bm l']|] eqn:Em; [|discriminate].
+    destruct (enc_mcus dct act mcb mem t l') as [bt|] eqn:Et; [|discriminate].
+    inversion He; subst bits. clear He. inversion Hwf as [|? ? Hm Ht]; subst.
+    cbn [length dec_mcus]. rewrite <- app_assoc.
+    rewrite (mcu_roundtrip mem m ldc bm l' _ Hm Em). rewrite (IH l' bt rest Ht Et). reflexivity.
+Qed.
+End McuRT.
+
+(* ------------------------------------------ generic restart-interval layer *)
+Lemma combine_skipn {A B} : forall n (l : list A) (l' : list B),
+  skipn n (combine l l') = combine (skipn n l) (skipn n l').
+Proof.
+  induction n as [|n IH]; intros l l'; [reflexivity|].
+  destruct l as [|a l]; [reflexivity|]. destruct l' as [|b l']; cbn [skipn combine].
+  - now destruct (skipn n l).
+  - apply IH.
+Qed.
+
+Lemma Forall_firstn' {A} (P : A -> Prop) : forall n l, Forall P l -> Forall P (firstn n l).
+Proof.
+  induction n as [|n IH]; intros l H; [constructor|]. destruct l; [constructor|].
+  inversion H; subst. cbn. constructor; auto.
+Qed.
+Lemma Forall_skipn' {A} (P : A -> Prop) : forall n l, Forall P l -> Forall P (skipn n l).
+Proof.
+  induction n as [|n IH]; intros l H; [exact H|]. destruct l; [constructor|].
+  inversion H; subst. cbn. auto.
+Qed.
+
+Section ScanRT.
+Variables M D R : Type.
+Variable enc_seg : list M -> option (list bool).
+Variable dec_seg : list D -> list bool -> option (list R * list bool).
+Variable p : M -> D -> Prop.
+Variable f : M -> D -> R.
+
+Definition Pseg (ms : list M) (ds : list D) : Prop :=
+  length ds = length ms /\ Forall (fun md => p (fst md) (snd md)) (combine ms ds).
+Definition Fseg (ms : list M) (ds : list D) : list R :=
+  map (fun md => f (fst md) (snd md)) (combine ms ds).
+
+Hypothesis seg_rt : forall ms ds bits rest, Pseg ms ds -> enc_seg ms = Some bits ->
+  dec_seg ds (bits ++ rest) = Some (Fseg ms ds, rest).
+
+Lemma Pseg_take Ri ms ds : Pseg ms ds -> Pseg (seg_take Ri ms) (seg_take Ri ds).
+Proof.
+  intros [Hl Hf]. destruct Ri as [|n]; [split; assumption|]. unfold seg_take. split.
+  - rewrite !firstn_length. lia.
+  - rewrite <- combine_firstn. now apply Forall_firstn'.
+Qed.
+Lemma Pseg_drop Ri ms ds : Pseg ms ds -> Pseg (seg_drop Ri ms) (seg_drop Ri ds).
+Proof.
+  intros [Hl Hf]. destruct Ri as [|n]; [split; [reflexivity|constructor]|]. unfold seg_drop. split.
+  - rewrite !skipn_length. lia.
+  - rewrite <- combine_skipn. now apply Forall_skipn'.
+Qed.
+Lemma Fseg_split Ri ms ds :
+  Fseg ms ds = Fseg (seg_take Ri ms) (seg_take Ri ds) ++ Fseg (seg_drop Ri ms) (seg_drop Ri ds).
+Proof.
+  unfold Fseg. destruct Ri as [|n]; cbn [seg_take seg_drop].
+  - cbn [combine map]. now rewrite app_nil_r.
+  - rewrite <- combine_firstn, <- combine_skipn, <- map_app, firstn_skipn. reflexivity.
+Qed.
+
+Lemma seg_drop_length {A} Ri (l : list A) :
+  length (seg_drop Ri l) = match Ri with O => 0%nat | _ => (length l - Ri)%nat end.
+Proof. destruct Ri; [reflexivity|]. unfold seg_drop. apply skipn_length. Qed.
+
+Lemma segs_roundtrip : forall fuel Ri n ms ds bytes,
+  0 <= n < 8 -> Pseg ms ds -> (length ms < fuel)%nat ->
+  enc_segs M enc_seg fuel Ri n ms = Some bytes ->
+  dec_segs D R dec_seg fuel Ri n ds bytes = Some (Fseg ms ds).
+Proof.
+  induction fuel as [|fu IH]; intros Ri n ms ds bytes Hn HP Hlen He; [lia|].
+  cbn [enc_segs] in He. cbn [dec_segs].
+  destruct (enc_seg (seg_take Ri ms)) as [bits|] eqn:Es; [|discriminate].
+  pose proof (Pseg_take Ri ms ds HP) as HPt. pose proof (Pseg_drop Ri ms ds HP) as HPd.
+  destruct (unpack_pack (length bits) bits (le_n _)) as [pad Hpad].
+  pose proof (seg_drop_length Ri ms) as Hdm. pose proof (seg_drop_length Ri ds) as Hdd.
+  destruct HP as [HPl _].
+  destruct (seg_drop Ri ms) as [|m0 mt] eqn:Edm.
+  - inversion He; subst bytes. clear He.
+    rewrite <- (app_nil_r (seg_bytes bits)). unfold seg_bytes.
+    rewrite (load_seg_stuff [] (or_introl eq_refl)). rewrite Hpad.
+    rewrite (seg_rt _ _ bits pad HPt Es).
+    destruct (seg_drop Ri ds) as [|d0 dt] eqn:Edd.
+    + rewrite (Fseg_split Ri ms ds). rewrite Edm, Edd. unfold Fseg at 2. cbn [combine map]. now rewrite app_nil_r.
+    + cbn [length] in Hdm, Hdd. destruct Ri; lia.
+  - destruct (enc_segs M enc_seg fu Ri ((n + 1) mod 8) (m0 :: mt)) as [rest|] eqn:Er; [|discriminate].
+    inversion He; subst bytes. clear He. unfold seg_bytes.
+    rewrite (load_seg_stuff ([255; 208 + n] ++ rest)).
+    2:{ right. exists (208 + n), rest. split; [reflexivity|lia]. }
+    rewrite Hpad. rewrite (seg_rt _ _ bits pad HPt Es).
+    destruct (seg_drop Ri ds) as [|d0 dt] eqn:Edd.
+    + cbn [length] in Hdm, Hdd. destruct Ri; lia.
+    + cbn [app]. rewrite Z.eqb_refl.
+      rewrite (IH Ri ((n + 1) mod 8) (m0 :: mt) (d0 :: dt) rest).
+      * rewrite (Fseg_split Ri ms ds). rewrite Edm, Edd. reflexivity.
+      * apply Z.mod_pos_bound. lia.
+      * exact HPd.
+      * rewrite Hdm. destruct Ri; [cbn [length] in Hdm; lia|]. cbn [length] in Hdm. lia.
+      * exact Er.
+Qed.
+
+Theorem scan_roundtrip Ri ms ds bytes : Pseg ms ds ->
+  enc_scan M enc_seg Ri ms = Some bytes -> dec_scan D R dec_seg Ri ds bytes = Some (Fseg ms ds).
+Proof.
+  intros HP He. unfold dec_scan. destruct HP as [Hl Hf]. rewrite Hl.
+  apply segs_roundtrip; [lia|split; assumption|lia|exact He].
+Qed.
+End ScanRT.
+
+(* ------------------------------------------------------- sequential scan *)
+Lemma map_fst_combine {A B} : forall (l : list A) (l' : list B), length l' = length l ->
+  map fst (combine l l') = l.
+Proof.
+  induction l as [|a l IH]; intros [|b l'] H; cbn in *; try lia; auto. f_equal. apply IH. lia.
+Qed.
+
+Lemma Forall_combine_fst {A B} (P : A -> Prop) : forall (l : list A) (l' : list B), length l' = length l ->
+  Forall (fun ab => P (fst ab)) (combine l l') -> Forall P l.
+Proof.
+  induction l as [|a l IH]; intros [|b l'] H HF; cbn in *; try lia; constructor.
+  - inversion HF; subst. assumption.
+  - inversion HF; subst. apply (IH l'); [lia|assumption].
+Qed.
+
+Lemma Forall_combine_fst' {A B} (P : A -> Prop) : forall (l : list A) (l' : list B),
+  Forall P l -> Forall (fun ab => P (fst ab)) (combine l l').
+Proof.
+  induction l as [|a l IH]; intros [|b l'] HF; cbn; try constructor.
+  - inversion HF; subst. assumption.
+  - inversion HF; subst. apply IH. assumption.
+Qed.
+
+Lemma Fseg_fst {A B} : forall (l : list A) (l' : list B), length l' = length l ->
+  Fseg A B A (fun m _ => m) l l' = l.
+Proof.
+  unfold Fseg. induction l as [|a l IH]; intros [|b l'] H; cbn in *; try lia; auto. f_equal. apply IH. lia.
+Qed.
+
+Theorem seq_scan_roundtrip_thm dct act mcb mem ncomp Ri ms bytes :
+  mcb <= 15 -> Forall (Forall wf_block) ms ->
+  seq_enc_scan dct act mcb mem ncomp Ri ms = Some bytes ->
+  seq_dec_scan dct act mem ncomp Ri (length ms) bytes = Some ms.
+Proof.
+  intros Hm Hwf He. unfold seq_dec_scan, seq_enc_scan in *.
+  pose proof (scan_roundtrip (list (list Z)) unit (list (list Z))
+    (fun seg => enc_mcus dct act mcb mem seg (repeat 0 ncomp))
+    (fun seg bs => dec_mcus dct act mem (length seg) (repeat 0 ncomp) bs)
+    (fun m _ => Forall wf_block m) (fun m _ => m)) as H.
+  assert (Hrt : forall ms0 ds bits rest,
+     Pseg (list (list Z)) unit (fun m _ => Forall wf_block m) ms0 ds ->
+     enc_mcus dct act mcb mem ms0 (repeat 0 ncomp) = Some bits ->
+     dec_mcus dct act mem (length ds) (repeat 0 ncomp) (bits ++ rest)
+       = Some (Fseg (list (list Z)) unit (list (list Z)) (fun m _ => m) ms0 ds, rest)).
+  { intros ms0 ds bits rest [Hl HF] Hb. rewrite Hl. rewrite (Fseg_fst ms0 ds Hl).
+    apply mcus_roundtrip with (mcb := mcb); [exact Hm| |exact Hb].
+    exact (Forall_combine_fst (Forall wf_block) ms0 ds Hl HF). }
+  specialize (H Hrt Ri ms (repeat tt (length ms)) bytes).
+  rewrite H; [| |exact He].
+  - now rewrite Fseg_fst by (now rewrite repeat_length).
+  - split; [now rewrite repeat_length|]. now apply Forall_combine_fst'.
+Qed.
